@@ -31,6 +31,13 @@ def build_dataset():
     st["m"] = BaseType("m", np.arange(4, dtype="u2"))
     st["n"] = BaseType("n", np.array(2.5))
     ds["st"] = st
+    # the first Sequence of the dataset is the one bounds() filters in place, so it is the one with axis attributes
+    loc = SequenceType("loc")
+    for c, axis in (("lon", "X"), ("lat", "Y"), ("depth", "Z"), ("t", None)):
+        loc[c] = BaseType(c, attributes={"axis": axis} if axis else {})
+    loc.data = np.array([(10.0, 1.0, 5.0, 1), (20.0, 2.0, 15.0, 2), (30.0, 3.0, 25.0, 3)],
+                        dtype=[("lon", "f8"), ("lat", "f8"), ("depth", "f8"), ("t", "i4")])
+    ds["loc"] = loc
     sq = SequenceType("q")
     for c in ("a", "b", "c"):
         sq[c] = BaseType(c)
@@ -41,12 +48,6 @@ def build_dataset():
     lz["v"] = BaseType("v")
     lz.data = IterData([(np.int32(i), np.float64(i) / 2) for i in range(5)], lz)
     ds["lz"] = lz
-    loc = SequenceType("loc")
-    for c, axis in (("lon", "X"), ("lat", "Y"), ("depth", "Z"), ("t", None)):
-        loc[c] = BaseType(c, attributes={"axis": axis} if axis else {})
-    loc.data = np.array([(10.0, 1.0, 5.0, 1), (20.0, 2.0, 15.0, 2), (30.0, 3.0, 25.0, 3)],
-                        dtype=[("lon", "f8"), ("lat", "f8"), ("depth", "f8"), ("t", "i4")])
-    ds["loc"] = loc
     return ds
 
 
@@ -81,6 +82,12 @@ REQUESTS = [
     "/d.dods?lz", "/d.ascii?lz&lz.k>1", "/d.dods?lz.v&lz.k<3", "/d.dods?lz[1:3]", "/d.das?x[0:0]",
     "/d.dods?mean(x,0)", "/d.dods?mean(mean(x,0),0)", "/d.ascii?mean(g,1)", "/d.dods?x,mean(f,1)", "/d.dods?loc&bounds(0,25,0,5,0,20,0,9)",
     "/d.dods?m", "/d.dds?m", "/d.ascii?n", "/d.dods?k", "/d.dods?q.a", "/d.dods?loc.t", "/d.dods?lz.k", "/d.dods?q.b", "/d.dods?lz.v",
+    # redundant projections (a constructor and then one of its members; a member twice; members in another order)
+    "/d.dods?st,st.m", "/d.dds?g,g.a", "/d.dods?g,g.y", "/d.dods?q,q.a", "/d.ascii?q,q.b", "/d.dods?lz,lz.k", "/d.dods?x,x",
+    "/d.dods?q.a,q.a", "/d.dods?st.n,st.m", "/d.dods?g.z,g.a", "/d.dods?loc,loc.lon",
+    # selections made of function calls only (the middleware strips them and filters what the handler returns)
+    "/d.dods?bounds(0,25,0,5,0,20,0,9)", "/d.ascii?loc.lon&bounds(0,25,0,5,0,20,0,9)", "/d.dods?loc.t,q.a&bounds(15,35,0,5,0,30,0,9)",
+    "/d.dods?loc&bounds(0,25,0,5,0,20,0,9)&loc.t>1",
     "/d.dods?nope", "/d.dods?x[5:9]", "/d.dods?q&q.zz>1", "/d.xyz", "/d", "/d.dods?x[0:1", "/d.dods?mean(nope,0)", "/d.dods?q&q.a>>1",
 ]
 
